@@ -1008,11 +1008,11 @@ def duration_bucket(scn):
 
 
 # ------------------------------------------------------------------------------------------------
-def smoke_real_process(root, jd):
+def smoke_real_process(root, jd, k=0):
     """One REAL helper process, started by get() of a holder that works in its own directory with the given
     jugdir: it runs, the file its path argument denotes in ITS working directory (/proc/<pid>/cwd, cmdline) is the
     lock file the holder created, release() kills it.  -> list of problems"""
-    wdir = os.path.realpath(os.path.join(root, 'smoke-' + jd['mode'] + '-' + jd['via']))
+    wdir = os.path.realpath(os.path.join(root, 'smoke%d-%s-%s' % (k, jd['mode'], jd['via'])))
     os.makedirs(wdir)
     jugdir = os.path.join(wdir, jd['dir']) if jd['mode'] == 'abs' else jd['dir']
     problems = []
@@ -1072,8 +1072,8 @@ def smoke_real_process(root, jd):
 
 
 def smoke(ck, root, jds):
-    for jd in jds:
-        problems = smoke_real_process(root, jd)
+    for k, jd in enumerate(jds):
+        problems = smoke_real_process(root, jd, k)
         ck.count('smoke:real-process')
         ck.obligations.append({'name': 'real helper process (jugdir %s, %s, via %s): started by get() on the lock file, killed by release()'
                                        % (jd['dir'], jd['mode'], jd['via']), 'kind': 'test', 'ok': not problems, 'msg': '; '.join(problems)})
